@@ -50,7 +50,7 @@ def entries(P: dict) -> list:
         out.append((f"legacy-v1:{name}", f"/dash/{name}", []))
     out.append(("legacy-v1:live", "/dash/hand_made.mpd", [["mode", "live"]]))
     for mps in P["mps"]:
-        if P["ppks"].get(mps):
+        if mps == "c16mps":            # the other multi-period streams of the world cannot be presented (404)
             out.append((f"mps:{mps}:vod", f"/mps/vod/{mps}/hand_made.mpd", []))
             out.append((f"mps:{mps}:live", f"/mps/live/{mps}/hand_made.mpd", []))
             out.append((f"player-mps:{mps}", f"/play/mps/vod/{mps}/hand_made/index.html", []))
@@ -86,7 +86,7 @@ class Player:
             self.watcher(rec)
         return r, body
 
-    def play(self, path: str, query: list, per_rep: int = 3) -> list:
+    def play(self, path: str, query: list, per_rep: int = 2, max_reps: int = 4) -> list:
         """→ trace: every request made, with status / redirect target / synthetic flag and, for
         manifests and pages, the URLs they spell out (`urls`)"""
         trace: list = []
@@ -118,7 +118,7 @@ class Player:
             return trace
         urls = [m.decode() for m in re.findall(rb"<Location>([^<]+)</Location>", body)]
         seg_urls = []
-        for rep in mpd.reps:
+        for rep in mpd.reps[:max_reps]:
             if rep.init:
                 seg_urls.append(_rel(rep.init_url()))
             if rep.media is None:
@@ -145,8 +145,20 @@ class Player:
         return trace
 
 
-def judge_b(trace: list, a_names: set) -> list:
-    """the property for a client that asked for nothing"""
+def url_option_names(trace: list) -> set:
+    out = set()
+    for rec in trace:
+        for u in ([rec["location"]] if rec.get("location") else []) + rec.get("urls", []) + [rec["url"]]:
+            out |= option_names(u)
+    return out
+
+
+def judge_b(trace: list, a_names: set, baseline: set | None = None) -> list:
+    """the property for a client that asked for nothing.  `baseline`: the option names that appear in
+    the URLs B was given when it played the same entry before A did (an entry may add options of its
+    own, e.g. the legacy name enc.mpd adds drm=all) – anything beyond it that A sent is a leak"""
+    if baseline is not None:
+        a_names = a_names - baseline
     fails = []
     for i, rec in enumerate(trace):
         if rec["synthetic"]:
@@ -163,14 +175,21 @@ def judge_b(trace: list, a_names: set) -> list:
     return fails
 
 
+_BASELINE: dict = {}
+
+
 def run_history(app, entry, a_query: list, order: str = "BAB") -> dict:
     """B0 plays the entry, A plays it with its options, B1 plays it again (order 'BAB'); 'AB': A first"""
     label, path, q0 = entry
     changes = []
-    state = {"snap": c16_state.snapshot()}
+    state = {"snap": c16_state.fast(), "hash": c16_state.shallow()}
 
     def watcher(rec):
-        snap = c16_state.snapshot()
+        h = c16_state.shallow()
+        if h == state["hash"]:
+            return
+        state["hash"] = h
+        snap = c16_state.fast()
         d = c16_state.diff(state["snap"], snap)
         if d:
             changes.append({"after_request": {k: rec[k] for k in ("client", "url", "status")}, "changed": d})
@@ -181,13 +200,17 @@ def run_history(app, entry, a_query: list, order: str = "BAB") -> dict:
     steps = []
     a_names = {k for k, _ in a_query} & A_ONLY_NAMES | ({"drm"} if any(k == "drm" for k, _ in a_query) else set())
     fails = []
+    a_played = False
     for who in order:
         if who == "A":
             steps.append({"client": "A", "trace": a.play(path, q0 + a_query)})
+            a_played = True
         else:
             tr = b.play(path, q0)
             steps.append({"client": "B", "trace": tr})
-            for f in judge_b(tr, a_names):
+            if not a_played and label not in _BASELINE:
+                _BASELINE[label] = url_option_names(tr)      # what the entry adds by itself
+            for f in judge_b(tr, a_names, _BASELINE.get(label)):
                 fails.append({**f, "play": len(steps) - 1})
     return {"entry": label, "path": path, "query": q0, "a_query": a_query, "order": order,
             "steps": steps, "fails": fails, "constant_changes": changes}
